@@ -1565,6 +1565,10 @@ func TestOperationIsolation(c *fluent.GRIBIClient, t testing.TB, opts ...TestOpt
 	clientB.Start(context.Background(), t)
 	defer clientB.Stop(t)
 	clientB.StartSending(context.Background(), t)
+	// Client B must be a live session at the server before client A's operations are handled.
+	if err := awaitTimeout(context.Background(), clientB, t, time.Minute); err != nil {
+		t.Fatalf("got unexpected error from server for client B, got: %v", err)
+	}
 
 	entries := []fluent.GRIBIEntry{
 		fluent.NextHopEntry().
@@ -1582,7 +1586,16 @@ func TestOperationIsolation(c *fluent.GRIBIClient, t testing.TB, opts ...TestOpt
 	}
 
 	clientA.Modify().AddEntry(t, entries...)
+	// Wait until the server has answered client A's operations - otherwise client A may be
+	// stopped before they are sent, and there is nothing that could leak to client B.
+	if err := awaitTimeout(context.Background(), clientA, t, time.Minute); err != nil {
+		t.Fatalf("got unexpected error from server for client A, got: %v", err)
+	}
 	clientA.Stop(t)
+
+	// A round trip on client B's stream: anything the server wrongly sent to client B whilst
+	// handling client A's operations is received before the answer to this update.
+	clientB.Modify().UpdateElectionID(t, electionID.Load(), 0)
 
 	clientBErr := awaitTimeout(context.Background(), clientB, t, time.Minute)
 	chk.HasNRecvErrors(t, clientBErr, 0)
